@@ -2,6 +2,9 @@
 from .sym import last_seg, subexprs, strip_refs
 
 
+_LS = {}
+
+
 class _Any:
     def __repr__(self):
         return "_"
@@ -89,7 +92,12 @@ def path_ends(path, name):
         return True
     # generic segments: compare on last_seg with same number of segments
     n = name.count("::") + 1
-    return last_seg(path, n) == name
+    k = (path, n)
+    r = _LS.get(k)
+    if r is None:
+        r = last_seg(path, n)
+        _LS[k] = r
+    return r == name
 
 
 def callee_is(e, *names):
